@@ -69,13 +69,16 @@ def seeds() -> list[dict]:
     meta = {'name': 'a', 'namespace': 'ns', 'uid': 'u1', 'resourceVersion': '5', 'creationTimestamp': '2030-01-01T00:00:00Z'}
     return [
         {'apiVersion': 'kopf.dev/v1', 'kind': 'KopfExample', 'metadata': dict(meta)},
-        {'apiVersion': 'kopf.dev/v1', 'kind': 'KopfExample', 'metadata': dict(meta, labels={'l': 'v'}, annotations={'user/a': 'ü', 'plain': ''}),
+        {'apiVersion': 'kopf.dev/v1', 'kind': 'KopfExample', 'metadata': dict(meta, labels={'l': 'v'}, annotations={'user/a': 'ü', 'plain': '', **LOOKALIKE}),
          'spec': {'x': 1, 'nested': {'e': {}, 'n': [], 'z': 0, 'f': False}}, 'status': {'s': 1}},
         {'apiVersion': 'apps/v1', 'kind': 'ReplicaSet', 'metadata': dict(meta, ownerReferences=[{'kind': 'Deployment', 'name': 'd', 'uid': 'x'}]),
          'spec': {'replicas': 1}},
         {'apiVersion': 'v1', 'kind': 'ConfigMap', 'metadata': dict(meta, finalizers=['other/fin']), 'data': {'k': 'v'}},
     ]
 
+
+# ordinary annotations whose keys merely begin like a storage prefix (no '/' boundary): user data, essential
+LOOKALIKE = {'kopf.zalando.org.uk/region': 'eu', 'my-op.example.com.au/region': 'au', 'kopf.devel/owner': 'me', 'multi.example.community/x': 'y'}
 
 HANDLER_IDS = ['h1', 'parent/sub', 'fn/spec.field', 'h' * 70]
 
@@ -189,6 +192,8 @@ def completeness(tier: str, stats: Stats) -> list[Violation]:
         ('label emptied', lambda o: o['metadata'].setdefault('labels', {}).__setitem__('l', '')),
         ('annotation added', lambda o: o['metadata'].setdefault('annotations', {}).__setitem__('user/new', 'v')),
         ('annotation changed', lambda o: o['metadata'].setdefault('annotations', {}).__setitem__('plain', 'x')),
+        *[(f'look-alike annotation {k} changed', (lambda o, k=k: o['metadata']['annotations'].__setitem__(k, 'changed') if k in (o['metadata'].get('annotations') or {}) else None))
+          for k in LOOKALIKE],
     ]
     inessential = [
         ('status changed', lambda o: o.setdefault('status', {}).__setitem__('s', 2)),
